@@ -251,6 +251,7 @@ def optimize (L : Lits) : Node → Node × Lits
      | some fb => let (fb', L3) := optimize L2 fb; optNode L3 (.tryN b' cs' (some fb')))
   | .inlineVec xs => let (xs', L1) := optimizeList L xs; optNode L1 (.inlineVec xs')
   | .index a i => let (a', L1) := optimize L a; let (i', L2) := optimize L1 i; optNode L2 (.index a' i')
+  | .evalStr nids n => let (n', L1) := optimize L n; (.evalStr nids n', L1)      -- the text goes through the same parser when it is evaluated
   | n => optNode L n
 def optimizeList (L : Lits) : List Node → List Node × Lits
   | [] => ([], L)
